@@ -146,7 +146,7 @@ def _c17_trace(inst):
         M.get_final_results()
     D.close()
     ev = D.run.ev
-    cfg = dict(maxfun=10 ** 6, det=False, reg=bool(inst.get("reg")), hasproj=False, onesample=False, valid=True, mayraise=False, wantopt=False, ref=0,
+    cfg = dict(maxfun=10 ** 6, det=False, reg=bool(inst.get("reg")), hasproj=False, onesample=False, valid=True, mayraise=False, wantopt=False, ref=0, parallel=False,
                zero=0.0, r1e10=1e10, rhobeg=1.0, rhoenddoc=[1e-8] * 3, maxunsucc=10, resetrho=False, maxnpt=cap + 2)
     enc = recorder.encode_events(dict(cfg=cfg, ev=ev))
     counts = {}
@@ -301,7 +301,7 @@ def _c16_trace(inst):
                     pass
     D.close()
     ev = D.run.ev
-    cfg = dict(maxfun=10 ** 6, det=False, reg=False, hasproj=False, onesample=False, valid=True, mayraise=False, wantopt=False, ref=0,
+    cfg = dict(maxfun=10 ** 6, det=False, reg=False, hasproj=False, onesample=False, valid=True, mayraise=False, wantopt=False, ref=0, parallel=False,
                zero=0.0, r1e10=1e10, rhobeg=1.0, rhoenddoc=[1e-8] * 3, maxunsucc=10, resetrho=False, maxnpt=cap + 2)
     nident = sum(1 for e in ev if e["ev"] == "Ident" and e.get("evaluable"))
     worst = max([e["err"] / e["bound"] for e in ev if e["ev"] == "Ident" and e.get("evaluable") and e["bound"] > 0] or [0.0])
